@@ -14,12 +14,13 @@
 //! Oracles = LogModel (vectors) after every transition, on every log.
 use serde::{Deserialize, Serialize};
 use serde_json::{json, Map, Value};
-use sos_backend::{BackendTarget, FolderEventLog};
+use sos_backend::{BackendEventLog, BackendTarget};
 use sos_core::{
     commit::{CommitHash, CommitProof, CommitTree},
     events::{
         patch::{CheckedPatch, Diff, Patch},
-        EventLog, EventRecord, WriteEvent,
+        AccountEvent, DeviceEvent, EventLog, EventRecord, FileEvent,
+        WriteEvent,
     },
     AccountId, Paths, SecretId, UtcDateTime, VaultId,
 };
@@ -36,6 +37,76 @@ use vkit::{clock, fsutil};
 use futures::StreamExt;
 
 const NLOGS: usize = 3;
+
+/// Which kind of event log an exploration drives (a configuration
+/// dimension): folder logs (three co-resident logs, two accounts) or one
+/// of the account-owned logs (one per account, two accounts).
+#[derive(Clone, Copy, Debug, Serialize, Deserialize, PartialEq, Eq, Hash)]
+enum Kind {
+    Folder,
+    Account,
+    Device,
+    Files,
+}
+
+impl Kind {
+    fn name(&self) -> &'static str {
+        match self {
+            Kind::Folder => "folder",
+            Kind::Account => "account",
+            Kind::Device => "device",
+            Kind::Files => "files",
+        }
+    }
+    fn nlogs(&self) -> usize {
+        if *self == Kind::Folder {
+            NLOGS
+        } else {
+            2
+        }
+    }
+}
+
+enum AnyLog {
+    Folder(BackendEventLog<WriteEvent>),
+    Account(BackendEventLog<AccountEvent>),
+    Device(BackendEventLog<DeviceEvent>),
+    Files(BackendEventLog<FileEvent>),
+}
+
+macro_rules! each {
+    ($s:expr, $l:ident => $e:expr) => {
+        match $s {
+            AnyLog::Folder($l) => $e,
+            AnyLog::Account($l) => $e,
+            AnyLog::Device($l) => $e,
+            AnyLog::Files($l) => $e,
+        }
+    };
+}
+
+impl AnyLog {
+    fn leaves(&self) -> Vec<[u8; 32]> {
+        each!(self, l => l.tree().leaves().unwrap_or_default())
+    }
+    fn root(&self) -> Option<CommitHash> {
+        each!(self, l => l.tree().root())
+    }
+}
+
+trait LogT:
+    Default
+    + binary_stream::futures::Encodable
+    + binary_stream::futures::Decodable
+    + Send
+    + Sync
+    + 'static
+{
+}
+impl LogT for WriteEvent {}
+impl LogT for AccountEvent {}
+impl LogT for DeviceEvent {}
+impl LogT for FileEvent {}
 
 #[derive(Clone, Debug, Serialize, Deserialize, PartialEq, Eq, Hash)]
 enum Cp {
@@ -160,17 +231,56 @@ fn ids() -> Ids {
     }
 }
 
-fn event(letter: u8) -> WriteEvent {
-    match letter {
-        0 => WriteEvent::DeleteSecret(ids().secret0),
-        1 => WriteEvent::SetVaultName("x".to_string()),
-        _ => WriteEvent::SetVaultName("y".to_string()),
+async fn encode_event(kind: Kind, letter: u8) -> EventRecord {
+    let i = ids();
+    match kind {
+        Kind::Folder => {
+            let e = match letter {
+                0 => WriteEvent::DeleteSecret(i.secret0),
+                1 => WriteEvent::SetVaultName("x".to_string()),
+                _ => WriteEvent::SetVaultName("y".to_string()),
+            };
+            EventRecord::encode_event(&e).await.unwrap()
+        }
+        Kind::Account => {
+            let e = match letter {
+                0 => AccountEvent::DeleteFolder(i.folders[0]),
+                1 => AccountEvent::RenameAccount("x".to_string()),
+                _ => AccountEvent::RenameFolder(i.folders[1], "y".to_string()),
+            };
+            EventRecord::encode_event(&e).await.unwrap()
+        }
+        Kind::Device => {
+            let k = |b: u8| -> sos_core::device::DevicePublicKey { [b; 32].into() };
+            let e = match letter {
+                0 => DeviceEvent::Revoke(k(1)),
+                1 => DeviceEvent::Revoke(k(2)),
+                _ => DeviceEvent::Revoke(k(3)),
+            };
+            EventRecord::encode_event(&e).await.unwrap()
+        }
+        Kind::Files => {
+            let path = sos_core::SecretPath(i.folders[0], i.secret0);
+            let n = |b: u8| -> sos_core::ExternalFileName { [b; 32].into() };
+            let e = match letter {
+                0 => FileEvent::DeleteFile(path, n(1)),
+                1 => FileEvent::CreateFile(path, n(1)),
+                _ => FileEvent::CreateFile(path, n(2)),
+            };
+            EventRecord::encode_event(&e).await.unwrap()
+        }
     }
 }
 
-fn owner_of(log: usize) -> AccountId {
+fn owner_of(kind: Kind, log: usize) -> AccountId {
     let i = ids();
-    if log < 2 {
+    if kind == Kind::Folder {
+        if log < 2 {
+            i.acc_a
+        } else {
+            i.acc_b
+        }
+    } else if log == 0 {
         i.acc_a
     } else {
         i.acc_b
@@ -224,19 +334,47 @@ async fn make_template(dir: &Path) -> anyhow::Result<()> {
 
 struct World {
     dir: PathBuf,
-    fs: Vec<FolderEventLog>,
-    db: Vec<FolderEventLog>,
+    fs: Vec<AnyLog>,
+    db: Vec<AnyLog>,
     client: async_sqlite::Client,
     model: Model,
+    kind: Kind,
+}
+
+async fn open_one(
+    kind: Kind,
+    target: BackendTarget,
+    owner: &AccountId,
+    folder: &VaultId,
+) -> anyhow::Result<AnyLog> {
+    Ok(match kind {
+        Kind::Folder => {
+            let mut l = BackendEventLog::<WriteEvent>::new_folder(target, owner, folder).await?;
+            l.load_tree().await?;
+            AnyLog::Folder(l)
+        }
+        Kind::Account => {
+            let mut l = BackendEventLog::<AccountEvent>::new_account(target, owner).await?;
+            l.load_tree().await?;
+            AnyLog::Account(l)
+        }
+        Kind::Device => {
+            let mut l = BackendEventLog::<DeviceEvent>::new_device(target, owner).await?;
+            l.load_tree().await?;
+            AnyLog::Device(l)
+        }
+        Kind::Files => {
+            let mut l = BackendEventLog::<FileEvent>::new_file(target, owner).await?;
+            l.load_tree().await?;
+            AnyLog::Files(l)
+        }
+    })
 }
 
 async fn open_logs(
     dir: &Path,
-) -> anyhow::Result<(
-    Vec<FolderEventLog>,
-    Vec<FolderEventLog>,
-    async_sqlite::Client,
-)> {
+    kind: Kind,
+) -> anyhow::Result<(Vec<AnyLog>, Vec<AnyLog>, async_sqlite::Client)> {
     let i = ids();
     let paths = Paths::new_client(dir.join("fs"));
     let dbp = Paths::new_client(dir.join("db"));
@@ -247,33 +385,19 @@ async fn open_logs(
     .await?;
     let mut fs = vec![];
     let mut db = vec![];
-    for k in 0..NLOGS {
-        let owner = owner_of(k);
-        let mut l = FolderEventLog::new_folder(
-            BackendTarget::FileSystem(paths.clone()),
-            &owner,
-            &i.folders[k],
-        )
-        .await?;
-        l.load_tree().await?;
-        fs.push(l);
-        let mut l = FolderEventLog::new_folder(
-            BackendTarget::Database(dbp.clone(), client.clone()),
-            &owner,
-            &i.folders[k],
-        )
-        .await?;
-        l.load_tree().await?;
-        db.push(l);
+    for k in 0..kind.nlogs() {
+        let owner = owner_of(kind, k);
+        fs.push(open_one(kind, BackendTarget::FileSystem(paths.clone()), &owner, &i.folders[k]).await?);
+        db.push(open_one(kind, BackendTarget::Database(dbp.clone(), client.clone()), &owner, &i.folders[k]).await?);
     }
     Ok((fs, db, client))
 }
 
 impl World {
-    async fn new(template: &Path, work: &Path) -> anyhow::Result<World> {
+    async fn new(template: &Path, work: &Path, kind: Kind) -> anyhow::Result<World> {
         let _ = std::fs::remove_dir_all(work);
         fsutil::copy_dir(template, work)?;
-        let (fs, db, client) = open_logs(work).await?;
+        let (fs, db, client) = open_logs(work, kind).await?;
         clock::install();
         Ok(World {
             dir: work.to_path_buf(),
@@ -281,8 +405,9 @@ impl World {
             db,
             client,
             model: Model {
-                logs: vec![vec![]; NLOGS],
+                logs: vec![vec![]; kind.nlogs()],
             },
+            kind,
         })
     }
 
@@ -310,9 +435,8 @@ impl Class {
     }
 }
 
-async fn mk_record(letter: u8, old: bool) -> (EventRecord, MRec) {
-    let ev = event(letter);
-    let mut rec = EventRecord::encode_event(&ev).await.unwrap();
+async fn mk_record(kind: Kind, letter: u8, old: bool) -> (EventRecord, MRec) {
+    let mut rec = encode_event(kind, letter).await;
     if old {
         // a time well before every logical clock value (and with
         // sub-second digits)
@@ -338,7 +462,7 @@ fn forged(mut p: CommitProof) -> CommitProof {
 /// Enabled operations in a model state, simplest first.
 fn enabled(model: &Model, primary_only_full: bool) -> Vec<Op> {
     let mut ops = vec![];
-    for log in 0..NLOGS {
+    for log in 0..model.logs.len() {
         let len = model.logs[log].len();
         let full = log == 0 || !primary_only_full;
         if full {
@@ -407,7 +531,16 @@ fn enabled(model: &Model, primary_only_full: bool) -> Vec<Op> {
 
 /// Apply one op to one implementation log.
 async fn apply_impl(
-    l: &mut FolderEventLog,
+    l: &mut AnyLog,
+    op: &Op,
+    model_log: &[MRec],
+    recs: &[EventRecord],
+) -> Class {
+    each!(l, x => apply_impl_t(x, op, model_log, recs).await)
+}
+
+async fn apply_impl_t<T: LogT>(
+    l: &mut BackendEventLog<T>,
     op: &Op,
     model_log: &[MRec],
     recs: &[EventRecord],
@@ -421,7 +554,7 @@ async fn apply_impl(
                 Class::Ok
             }
             Op::PatchUnchecked { .. } => {
-                let p = Patch::<WriteEvent>::new(recs.to_vec());
+                let p = Patch::<T>::new(recs.to_vec());
                 l.patch_unchecked(&p).await.map_err(|e| e.to_string())?;
                 Class::Ok
             }
@@ -441,7 +574,7 @@ async fn apply_impl(
                         forged(tree_of(&hashes).head().unwrap())
                     }
                 };
-                let p = Patch::<WriteEvent>::new(recs.to_vec());
+                let p = Patch::<T>::new(recs.to_vec());
                 match l
                     .patch_checked(&proof, &p)
                     .await
@@ -475,7 +608,7 @@ async fn apply_impl(
                     h[0] = CommitTree::hash(b"wrong");
                     tree_of(&h).head().unwrap()
                 };
-                let diff = Diff::<WriteEvent> {
+                let diff = Diff::<T> {
                     patch: Patch::new(recs.to_vec()),
                     checkpoint,
                     last_commit: None,
@@ -548,8 +681,16 @@ impl Fails {
     }
 }
 
-async fn stream_of(
-    l: &FolderEventLog,
+async fn stream_of(l: &AnyLog, reverse: bool) -> Result<Vec<EventRecord>, String> {
+    each!(l, x => stream_of_t(x, reverse).await)
+}
+
+async fn diff_records_of(l: &AnyLog, c: &CommitHash) -> Result<Vec<EventRecord>, String> {
+    each!(l, x => x.diff_records(Some(c)).await.map_err(|e| e.to_string()))
+}
+
+async fn stream_of_t<T: LogT>(
+    l: &BackendEventLog<T>,
     reverse: bool,
 ) -> Result<Vec<EventRecord>, String> {
     let mut out = vec![];
@@ -564,19 +705,19 @@ async fn stream_of(
 /// Oracle for one backend after one transition.
 async fn check_backend(
     backend: &str,
-    w_logs: &[FolderEventLog],
-    fresh: &[FolderEventLog],
+    w_logs: &[AnyLog],
+    fresh: &[AnyLog],
     model: &Model,
     op: &Op,
     fails: &mut Fails,
 ) {
     let k = op.kind();
-    for log in 0..NLOGS {
+    for log in 0..model.logs.len() {
         let m = &model.logs[log];
         let role = if log == op.log() { "target" } else { "other_log" };
         let want_hashes: Vec<[u8; 32]> = m.iter().map(|r| r.hash).collect();
-        let live = w_logs[log].tree().leaves().unwrap_or_default();
-        let reloaded = fresh[log].tree().leaves().unwrap_or_default();
+        let live = w_logs[log].leaves();
+        let reloaded = fresh[log].leaves();
         if live != want_hashes {
             fails.push(
                 "C06",
@@ -586,7 +727,7 @@ async fn check_backend(
             );
         }
         if reloaded != live
-            || fresh[log].tree().root() != w_logs[log].tree().root()
+            || fresh[log].root() != w_logs[log].root()
         {
             fails.push(
                 "C06",
@@ -597,7 +738,7 @@ async fn check_backend(
         }
         if live == want_hashes && !want_hashes.is_empty() {
             let wt = tree_of(&want_hashes);
-            if wt.root() != w_logs[log].tree().root() {
+            if wt.root() != w_logs[log].root() {
                 fails.push(
                     "C06",
                     format!("{}:root_mismatch:{}:{}", k, role, backend),
@@ -685,7 +826,7 @@ async fn check_backend(
             let last = m.iter().rposition(|r| r.hash == m[j].hash).unwrap();
             let want: Vec<[u8; 32]> =
                 m[last + 1..].iter().map(|r| r.hash).collect();
-            match w_logs[log].diff_records(Some(&c)).await {
+            match diff_records_of(&w_logs[log], &c).await {
                 Ok(d) => {
                     let got: Vec<[u8; 32]> =
                         d.iter().map(|r| r.commit().0).collect();
@@ -720,24 +861,24 @@ async fn step(w: &mut World, op: &Op, check: bool) -> Fails {
     match op {
         Op::Apply { evs, .. } => {
             for e in evs {
-                let (r, m) = mk_record(*e, false).await;
+                let (r, m) = mk_record(w.kind, *e, false).await;
                 recs.push(r);
                 mrecs.push(m);
             }
         }
         Op::ApplyOld { ev, .. } => {
-            let (r, m) = mk_record(*ev, true).await;
+            let (r, m) = mk_record(w.kind, *ev, true).await;
             recs.push(r);
             mrecs.push(m);
         }
         Op::PatchUnchecked { ev, .. } | Op::PatchChecked { ev, .. } => {
-            let (r, m) = mk_record(*ev, false).await;
+            let (r, m) = mk_record(w.kind, *ev, false).await;
             recs.push(r);
             mrecs.push(m);
         }
         Op::ReplaceAll { .. } => {
             for e in [2u8, 0u8] {
-                let (r, m) = mk_record(e, false).await;
+                let (r, m) = mk_record(w.kind, e, false).await;
                 recs.push(r);
                 mrecs.push(m);
             }
@@ -790,7 +931,7 @@ async fn step(w: &mut World, op: &Op, check: bool) -> Fails {
     // model, on every log)
     let refused_model = matches!(c_model, Class::Conflict | Class::Err(_));
     // fresh instances
-    let (ffs, fdb, fclient) = match open_logs(&w.dir).await {
+    let (ffs, fdb, fclient) = match open_logs(&w.dir, w.kind).await {
         Ok(x) => x,
         Err(e) => {
             fails.push(
@@ -859,9 +1000,10 @@ async fn expand(
     work: &Path,
     hist: &[Op],
     reduced: bool,
+    kind: Kind,
 ) -> Value {
     // model-only replay to find enabled ops
-    let mut w = World::new(template, work).await.expect("world");
+    let mut w = World::new(template, work, kind).await.expect("world");
     for op in hist {
         let _ = step(&mut w, op, false).await;
     }
@@ -870,7 +1012,7 @@ async fn expand(
     w.close().await;
     let mut out = vec![];
     for op in ops {
-        let mut w = World::new(template, work).await.expect("world");
+        let mut w = World::new(template, work, kind).await.expect("world");
         for h in hist {
             let _ = step(&mut w, h, false).await;
         }
@@ -901,7 +1043,7 @@ fn main() {
     let args = Args::parse();
     let prop = args.props.first().cloned().unwrap_or("C06".to_string());
     let depth = match args.tier {
-        Tier::Quick => 3,
+        Tier::Quick => 4,
         Tier::Thorough => 5,
     };
     let depth: usize = std::env::var("LOGX_DEPTH")
@@ -919,8 +1061,9 @@ fn main() {
         let rt = rt();
         rt.block_on(make_template(&template)).expect("template");
         let work = wd.path().join("w");
+        let kind: Kind = serde_json::from_str(&std::env::var("VKIT_KIND").expect("VKIT_KIND")).unwrap();
         pool::worker_loop(|idx| {
-            rt.block_on(expand(&template, &work, &frontier[idx], reduced))
+            rt.block_on(expand(&template, &work, &frontier[idx], reduced, kind))
         });
     }
 
@@ -931,17 +1074,28 @@ fn main() {
     let level = "model_checking";
     let mut run = Run::new(&prop, level, &args);
     let wd = fsutil::WorkDir::new("logx");
-    let mut seen: HashSet<String> = HashSet::new();
-    let mut frontier: Vec<Vec<Op>> = vec![vec![]];
-    seen.insert("||".to_string());
     let mut transitions = 0u64;
     let mut samples = vec![];
     let mut per_level = vec![];
     let mut accepted = 0u64;
     let mut refused = 0u64;
     let mut op_kinds: BTreeMap<String, u64> = BTreeMap::new();
+    let mut states_total = 0usize;
+    let mut unexpanded_total = 0usize;
+    // folder logs at the full depth; the account-owned logs (one per
+    // account, two accounts sharing each table) one level less
+    let kinds: Vec<(Kind, usize)> = vec![
+        (Kind::Folder, depth),
+        (Kind::Account, depth.saturating_sub(1).max(2)),
+        (Kind::Device, depth.saturating_sub(1).max(2)),
+        (Kind::Files, depth.saturating_sub(1).max(2)),
+    ];
+    for (kind, depth) in kinds {
+    let mut seen: HashSet<String> = HashSet::new();
+    let mut frontier: Vec<Vec<Op>> = vec![vec![]];
+    seen.insert(vec![""; kind.nlogs()].join("|"));
     for d in 0..depth {
-        let input = wd.path().join(format!("frontier-{}.json", d));
+        let input = wd.path().join(format!("frontier-{}-{}.json", kind.name(), d));
         std::fs::write(&input, serde_json::to_vec(&frontier).unwrap())
             .unwrap();
         let mut opts = PoolOpts::default();
@@ -949,6 +1103,7 @@ fn main() {
             "VKIT_INPUT".to_string(),
             input.to_string_lossy().to_string(),
         ));
+        opts.env.push(("VKIT_KIND".to_string(), serde_json::to_string(&kind).unwrap()));
         let res = pool::run_stage("expand", frontier.len(), &opts);
         let mut next = vec![];
         for (i, r) in res.into_iter().enumerate() {
@@ -981,10 +1136,12 @@ fn main() {
                         h.push(op);
                         for f in s["fails"].as_array().unwrap() {
                             if f["prop"].as_str() == Some(prop.as_str()) {
+                                let sig0 = f["sig"].as_str().unwrap();
+                                let sig_k = if kind == Kind::Folder { sig0.to_string() } else { format!("{}:{}_log", sig0, kind.name()) };
                                 run.fail(
-                                    f["sig"].as_str().unwrap(),
+                                    &sig_k,
                                     f["what"].as_str().unwrap(),
-                                    json!({"engine":"logx","history": h, "detail": f["detail"]}),
+                                    json!({"engine":"logx","log_kind": kind, "history": h, "detail": f["detail"]}),
                                 );
                             }
                         }
@@ -993,7 +1150,7 @@ fn main() {
                         if h.len() >= 3 {
                             push_sample(
                                 &mut samples,
-                                json!({"history": h, "state": canon}),
+                                json!({"log_kind": kind.name(), "history": h, "state": canon}),
                                 4,
                             );
                         }
@@ -1004,8 +1161,11 @@ fn main() {
                 }
             }
         }
-        per_level.push(json!({"depth": d + 1, "new_states": next.len(), "expanded": frontier.len()}));
+        per_level.push(json!({"log_kind": kind.name(), "depth": d + 1, "new_states": next.len(), "expanded": frontier.len()}));
         frontier = next;
+    }
+    states_total += seen.len();
+    unexpanded_total += frontier.len();
     }
     if accepted == 0 || refused == 0 {
         run.machinery("vacuous: no accepted or no refused checked request was explored");
@@ -1044,14 +1204,14 @@ fn main() {
     run.assume("state abstraction: a state is the per-log sequence of event letters (old-time records distinguished); storage-internal identifiers (SQLite row ids, file offsets) are assumed not to influence future behaviour beyond what the oracles observe after every transition");
     run.assume("SQLite itself and the OS file system are trusted base");
     let mut cov = Map::new();
-    cov.insert("states".into(), json!(seen.len()));
+    cov.insert("states".into(), json!(states_total));
     cov.insert("transitions".into(), json!(transitions));
     cov.insert("traces_validated_against_impl".into(), json!(transitions));
     cov.insert("samples".into(), json!(samples));
     cov.insert("exhaustive".into(), json!(true));
     cov.insert("depth".into(), json!(depth));
     cov.insert("levels".into(), json!(per_level));
-    cov.insert("unexpanded_frontier_at_bound".into(), json!(frontier.len()));
+    cov.insert("unexpanded_frontier_at_bound".into(), json!(unexpanded_total));
     cov.insert("operations_by_kind".into(), json!(op_kinds));
     cov.insert("server_level_requests".into(), server_level);
     cov.insert("checked_requests_on_agreed_base".into(), json!(accepted));
@@ -1074,7 +1234,9 @@ fn replay(path: &Path, prop: &str) -> i32 {
     }
     let hist: Vec<Op> =
         serde_json::from_value(v["witness"]["history"].clone()).unwrap();
+    let kind: Kind = serde_json::from_value(v["witness"]["log_kind"].clone()).unwrap_or(Kind::Folder);
     let want_sig = v["signature"].as_str().unwrap_or("").to_string();
+    let want_sig = want_sig.trim_end_matches(&format!(":{}_log", kind.name())).to_string();
     let wd = fsutil::WorkDir::new("logx-r");
     let template = wd.path().join("template");
     let rt = rt();
@@ -1083,7 +1245,7 @@ fn replay(path: &Path, prop: &str) -> i32 {
     for round in 0..2 {
         let work = wd.path().join(format!("w{}", round));
         let sigs = rt.block_on(async {
-            let mut w = World::new(&template, &work).await.unwrap();
+            let mut w = World::new(&template, &work, kind).await.unwrap();
             let mut sigs = vec![];
             for (i, op) in hist.iter().enumerate() {
                 let f = step(&mut w, op, i + 1 == hist.len()).await;
